@@ -564,8 +564,17 @@ def handover(prog, run, only_methods=None):
                 continue
             if mname == "mpe":
                 ok = isinstance(x, ast.Name) and x.id == want and want in mpos
+                if not ok and isinstance(x, ast.Attribute) and astq.src(x).startswith("self.run_params."):
+                    # the value read back from the run parameters, where this call stored the caller's argument just before
+                    st_, v_ = astq.attr_store_status(holder if holder is not None else m, call, astq.src(x))
+                    if st_ == "before" and isinstance(v_, ast.Name) and v_.id == want and want in mpos:
+                        ok = True
             else:
                 s = astq.src(x, 80)
+                if want == "rtol" and isinstance(x, ast.Attribute) and s.startswith("self.run_params."):
+                    st_, v_ = astq.attr_store_status(holder if holder is not None else m, call, s)
+                    if st_ == "before" and isinstance(v_, ast.Name) and v_.id == "rtol" and "rtol" in mpos:
+                        x = v_
                 ok = (want == "rtol" and isinstance(x, ast.Name) and x.id == "rtol") or \
                      (want == "sel_freq" and s.endswith(".result[0]") and "SelFromPlot" in s) or (want == "order" and s.endswith(".result[1]") and "SelFromPlot" in s)
             run.ob("R-handover", m.qual, f"{p} <- {want}", ok, f"`{astq.src(x, 60)}`", astq.src(x, 60), file=fh, node=call)
